@@ -1,21 +1,23 @@
 #!/bin/bash
 # usage: seed_recheck.sh <seed-id> <property> [more properties...]
-# re-runs the registered checks against a stored seeded change (/verif/seeded/<seed-id>/patch.diff applied to /repo and
-# undone straight afterwards) and refreshes check_<property>.log and the "checks" entry of meta.json
+# re-runs the registered checks against a stored seeded change (patch applied to a scratch worktree of /repo, checked
+# through VERIF_REPO; /repo itself is never touched) and refreshes check_<property>.log and the "checks" entry of meta.json
 set -u
 ID=$1; shift; PROPS="$@"
 OUT=/verif/seeded/$ID
-cd /repo && git apply $OUT/patch.diff || { echo "patch does not apply to /repo"; exit 2; }
+WT=/tmp/recheck_wt_$$; EV=/tmp/recheck_out_$$
+git -C /repo worktree add -q --detach $WT HEAD || exit 2
+mkdir -p $EV
+git -C $WT apply $OUT/patch.diff || { echo "patch does not apply"; git -C /repo worktree remove --force $WT; exit 2; }
 RES=""
 for P in $PROPS; do
-  python3 /verif/vcheck.py --property $P --tier quick > $OUT/check_$P.log 2>&1; RC=$?
+  VERIF_REPO=$WT VERIF_OUT_DIR=$EV python3 /verif/vcheck.py --property $P --tier quick > $OUT/check_$P.log 2>&1; RC=$?
   V=$(grep -c "^VIOLATION" $OUT/check_$P.log)
   RES="$RES $P:rc=$RC:violations=$V"
-  echo "$ID check $P: rc=$RC violations=$V"
+  echo "$ID check $P: rc=$RC violations=$V replayed=$(grep '^VIOLATION' $OUT/check_$P.log | grep -vc no-failing-input-found)"
   grep "failed obligation" $OUT/check_$P.log | head -2 | cut -c1-220
 done
-git -C /repo checkout -q -- .
-rm -rf /verif/replay/C*
+git -C /repo worktree remove --force $WT; rm -rf $EV
 python3 - <<PY
 import json
 p="$OUT/meta.json"
